@@ -42,6 +42,7 @@ except Exception as e:
 PY
 rc=0
 for a in "$ART"/*; do
+  case "$a" in *slow-unit-*) continue;; esac
   [ -f "$a" ] || continue
   case "$a" in *oom-*|*timeout-*) echo "INCONCLUSIVE property=$ID libFuzzer artifact $(basename "$a") (resource limit)"; [ $rc -eq 0 ] && rc=2; continue;; esac
   "$XV" frombytes "$ID" "$a"; r=$?
